@@ -3,7 +3,7 @@ first match.
 
 State graph over receive histories: events "bundle i of the menu arrives" (any
 bundle, repeats allowed) and "the agent runs one pending idle callback", over a
-menu of twelve bundles (look-alikes differing in exactly one identity component,
+menu of fourteen bundles (look-alikes differing in exactly one identity component,
 a fragment pair, own-source, administrative-endpoint, forward and no-route
 destinations) and five routing tables.  A reference router with identity
 memory predicts deliveries and transmissions.'''
@@ -42,6 +42,9 @@ def menu():
         ('local-time', mk('dtn://node/svc', 'dtn://src/', (T + 1, 1), data=b'L3')),
         ('frag-0', mk('dtn://node/app', 'dtn://fsrc/', (T, 9), flags=B.FLAG_IS_FRAGMENT, data=b'abc', frag_offset=0, total_adu=6)),
         ('frag-3', mk('dtn://node/app', 'dtn://fsrc/', (T, 9), flags=B.FLAG_IS_FRAGMENT, data=b'def', frag_offset=3, total_adu=6)),
+        # fragments of a bundle in transit, cut at another place on another path: same offset, other length
+        ('fwd-frag-0-60', mk('dtn://far/x', 'dtn://src/', (T, 11), flags=B.FLAG_IS_FRAGMENT, data=bytes(range(60)), frag_offset=0, total_adu=100)),
+        ('fwd-frag-0-40', mk('dtn://far/x', 'dtn://src/', (T, 11), flags=B.FLAG_IS_FRAGMENT, data=bytes(range(40)), frag_offset=0, total_adu=100)),
         ('own-source', mk('dtn://node/svc', NODE, (T, 1), data=b'OWN', **rq)),
         ('admin-endpoint', mk(NODE, 'dtn://src/', (T, 5), flags=B.FLAG_ADMIN, data=admin_payload(0))),
         ('forward', mk('dtn://far/x', 'dtn://src/', (T, 6), data=b'FWD', **rq)),
@@ -61,11 +64,16 @@ MENU = menu()
 ENC = [B.encode(b) for (_n, b) in MENU]
 
 
-def ident(pri):
+def ident(pri, payload_len=None):
     out = (pri['src'], pri['ts'][0], pri['ts'][1])
     if pri['flags'] & B.FLAG_IS_FRAGMENT:
-        out += (pri['frag_offset'], pri['total_adu'])
+        # offset and length of the fragment (and the total it belongs to)
+        out += (pri['frag_offset'], pri['total_adu'], payload_len)
     return out
+
+
+def ident_of(bundle):
+    return ident(bundle['primary'], len(bundle['blocks'][-1]['data']))
 
 
 class RefRouter(object):
@@ -90,7 +98,7 @@ class RefRouter(object):
         pri = bundle['primary']
         if pri['src'] == NODE:
             return
-        idn = ident(pri)
+        idn = ident_of(bundle)
         if idn in self.seen:
             return
         self.seen.add(idn)
@@ -182,7 +190,7 @@ class HistWorld(BpWorld):
             self.depth += 1
             self.history.append(MENU[idx][0])
             pri = MENU[idx][1]['primary']
-            if pri['src'] != NODE and ident(pri) not in self.ref.seen and not pri['flags'] & B.FLAG_IS_FRAGMENT:
+            if pri['src'] != NODE and ident_of(MENU[idx][1]) not in self.ref.seen and not pri['flags'] & B.FLAG_IS_FRAGMENT:
                 self.ref_reports.extend(solo_reports(self.params['table'], idx))
             self.ref.receive(MENU[idx][1])
             self.receive(ENC[idx])
@@ -196,7 +204,7 @@ class HistWorld(BpWorld):
         for octets in self.sent():
             dec = B.decode(octets)
             if not dec['primary']['flags'] & B.FLAG_ADMIN or dec['primary']['src'] != NODE:
-                forwarded.append(ident(dec['primary']))
+                forwarded.append(ident_of(dec))
         return delivered, forwarded
 
     def v(self, kind, sig, detail):
@@ -281,13 +289,13 @@ def _check_state(self):
 HistWorld.check_state = _check_state
 
 ASSUMPTIONS = [
-    'receive histories of at most 3 (quick) / 4 (thorough) bundles from a menu of twelve, idle callbacks interleaved in every order',
+    'receive histories of at most 3 (quick) / 4 (thorough) bundles from a menu of fourteen, idle callbacks interleaved in every order',
     'routing patterns are matched with re.match (anchored at the start) as the configuration loader compiles them',
     'a bundle addressed to the node\'s own administrative endpoint is delivered whatever the table says',
     'four menu bundles request every status report towards a routed report-to endpoint; the reports expected for a history are those a fresh agent emits for the first copy of each identity alone (differential reference), as an upper bound in every state and exactly when quiescent',
 ]
 
-RULE = ('explicit-state search by replay on fresh real agents: all receive histories up to the depth bound over twelve '
+RULE = ('explicit-state search by replay on fresh real agents: all receive histories up to the depth bound over fourteen '
         'bundles x five routing tables with idle callbacks interleaved; a reference router with identity memory decides '
         'expected deliveries/transmissions; compared exactly in every quiescent state, as an upper bound in every state')
 
